@@ -2,9 +2,9 @@
    non-vacuity examples.  The work is in ProofsNames (name resolution),
    ProofsFields (one option field), ProofsMain (parser = grammar), ProofsRules
    (rewrite rules), ProofsOracle and ProofsReject (the boolean oracle). *)
-From Yv Require Import Common.Base C20.Model C20.Spec.
+From Yv Require Import Common.Base C20.Model C20.Spec C20.Getopts.
 From Yv Require Export C20.ProofsNames C20.ProofsFields C20.ProofsMain C20.ProofsRules
-  C20.ProofsOracle C20.ProofsReject C20.ProofsExact C20.ProofsTables.
+  C20.ProofsOracle C20.ProofsReject C20.ProofsExact C20.ProofsTables C20.ProofsGetopts.
 
 Lemma parse_iff_spells_lemma specs m args os ops :
   canon (parse specs m args) = Some (os, ops) <-> Spells specs m os ops args.
@@ -124,6 +124,18 @@ Example ex_malformed_missing : Malformed ex_specs with_extensions [f_ab; f_o] DM
 Proof.
   exact (parse_err_malformed ex_specs with_extensions [f_ab; f_o] (MissingArg f_o 2%nat) eq_refl).
 Qed.
+
+(* getopts: `-axb arg` with the option string `ab:` (x unknown, then more
+   characters in the same group) and its separate spelling *)
+Example ex_getopts_unknown_in_group :
+  gvisible (getopts_run [97; 98; 58]%N [[45; 97; 120; 98]%N; [97; 114; 103]%N])
+  = Some ([([97]%N, None); ([63]%N, None); ([98]%N, Some [97; 114; 103]%N)], [], false)
+  /\ gvisible (getopts_run [97; 98; 58]%N [[45; 97]%N; [45; 120]%N; [45; 98]%N; [97; 114; 103]%N])
+     = gvisible (getopts_run [97; 98; 58]%N [[45; 97; 120; 98]%N; [97; 114; 103]%N]).
+Proof. split; vm_compute; reflexivity. Qed.
+
+Example ex_getopts_judge : judge [97; 98; 58]%N 120%N <> GTakesArg /\ judge [97; 98; 58]%N 98%N = GTakesArg.
+Proof. split; [vm_compute; discriminate | reflexivity]. Qed.
 
 (* a result the oracle accepts *)
 Example ex_oracle_accepts :
